@@ -13,39 +13,45 @@ CHECKS = {
                      'the real connection loop (Client::handle, BufWriter model) on 2-request pipelines under symbolic read sizes answers every loud request.',
                 design='5 C09', note=NOTE_COMMON + ' Decoder level: 1 symbolic frame, 2 deliveries; socket level: bounded reads.'),
 }
-STORE_NOTE = NOTE_COMMON + (' Store level: one command from an arbitrary well-formed state vector (2 keys), uninterpreted byte strings, '
+STORE_NOTE = NOTE_COMMON + (' Store level: one command from an arbitrary well-formed state vector (2 keys) on both store variants (plain MemoryStore, and '
+              'behind RandomPolicy with the limit out of reach), uninterpreted byte strings, '
               'clock constant within a command; histories by induction over the checked state invariant, plus solver-side BMC where stated.')
 CHECKS.update({
     'C01': dict(text='One-step refinement of every MemcStore command (real MIR paths) against a reference model from an arbitrary well-formed '
                      'state: values/flags returned exactly, frame condition on the other key, visibility only changed as specified, stored CAS non-zero; '
-                     'wire round trip (decode -> handler -> encode) checked by the handler-level harness.',
+                     'wire round trip (decode -> handler -> encode) keyed on the opcode: what is stored / returned is exactly the frame\'s bytes, the store is '
+                     'addressed with exactly the frame\'s key bytes, every opcode reaches its own command; in-solver BMC: no response carries the reserved CAS 0.',
                 design='5 C01', note=STORE_NOTE),
     'C02': dict(text='One-step refinement (success iff CAS equal, failures leave the item untouched, acknowledged CAS = stored CAS, tokens strictly '
                      'increase within a lifetime, counter stays ahead of stored tokens) plus in-solver BMC of k-command histories from the empty store '
-                     'for token re-issue within a lifetime; history witnesses are replayed natively frame by frame.',
+                     'for token re-issue within a lifetime (1 key k=3/5; 2 keys sharing the counter k=5; request CAS unrestricted) and for the reserved CAS 0; '
+                     'the counter invariant (monotone, ahead of every stored token, no wrap within 2^61 commands) is checked inductive; history witnesses are replayed natively.',
                 design='5 C02', note=STORE_NOTE),
     'C05': dict(text='One-step refinement of visibility and deadline of every key after every command for every clock value and TTL: expired items '
                      'are absent for all presence-dependent commands, no command (incl. delayed flush) moves a deadline later.',
                 design='5 C05', note=STORE_NOTE + ' TTL ranges over all u32 (the statement speaks about 0..30 days).'),
     'C06': dict(text='One-step refinement of add/replace/append/prepend: status per presence, old+suffix / prefix+old as terms, flags kept, '
-                     'rejected commands leave value, flags and CAS untouched.', design='5 C06', note=STORE_NOTE),
+                     'rejected commands leave value, flags and CAS untouched; wire round trip of the append/prepend/add/replace/set opcodes incl. the quiet ones.', design='5 C06', note=STORE_NOTE),
     'C07': dict(text='One-step refinement of incr/decr: (v+d) mod 2^64, max(v-d,0), decimal text stored, flags kept, creation unless expiration is '
-                     '0xffffffff, non-numeric error leaves the item unchanged, no arithmetic panic (overflow checks on).',
+                     '0xffffffff, non-numeric error leaves the item unchanged, no arithmetic panic (overflow checks on); wire round trip of the four counter opcodes.',
                 design='5 C07', note=STORE_NOTE + ' "decimal u64" is whatever str::parse::<u64> accepts (uninterpreted isnum/num on stored terms).'),
     'C08': dict(text='One-step refinement of delete (not found / key exists / removed, other keys untouched) and flush (immediate: nothing visible; '
                      'delay n: every deadline becomes min(old, now+n)); later stores unaffected; in-solver BMC of set/get/flush histories with clock advances, '
-                     'all fields of the real MemoryStore threaded through the state vector.', design='5 C08', note=STORE_NOTE),
+                     'all fields of the real MemoryStore threaded through the state vector; wire round trip of the delete/flush opcodes; all schedules of a CAS-carrying '
+                     'delete racing a store or another delete (linearizability).', design='5 C08', note=STORE_NOTE),
 })
 WIRE_NOTE = NOTE_COMMON + (' Wire level: one fully symbolic request frame (all 256 opcodes, all header fields) from an arbitrary well-formed '
              'store state through the real decode -> handle_request -> encode_message; key identity delegated to the map model.')
 CHECKS.update({
     'C10': dict(text='No feasible panic path (overflow checks on) in the decoder on an arbitrary stream prefix (one-shot and split delivery) nor in '
                      'decode -> handle -> encode of an arbitrary frame from an arbitrary state under both store variants; only headers passing all '
-                     'validity rules reach a command handler; buffer space is reserved only for bodies within the item limit; socket loops bounded.',
+                     'validity rules reach a command handler; buffer space is reserved only for bodies within the item limit; a frame (oversized ones included) is handed out once and '
+                     'the parser is back in its initial state; socket loops bounded.',
                 design='5 C10', note=WIRE_NOTE + ' Stored values shorter than 2^31 bytes (stated bound). Allocation failure out of scope.'),
     'C11': dict(text='Every response rope produced by the real handlers/encoder for an arbitrary request and state, parsed back by an independent '
                      'reader: magic/opcode/opaque/data type, status table, body length = bytes that follow, extras/key/value layout per outcome '
-                     'class; the Encoder twin writes the same bytes. Path witnesses are replayed natively and compared byte for byte.',
+                     'class; the Encoder twin writes the same bytes; connection level: what Client::handle writes to the socket for a get-family hit on a value of any '
+                     'length <= 2 MiB is, part by part, encode_message of the responses, in order. Path witnesses are replayed natively and compared byte for byte.',
                 design='5 C11', note=WIRE_NOTE),
     'C19': dict(text='Relational one-step check: the same symbolic frame executed with the loud and the quiet opcode from the same arbitrary state '
                      'gives identical post-states; quiet responses are the loud ones filtered (silent on success/miss, identical apart from the '
@@ -57,8 +63,9 @@ POLICY_NOTE = NOTE_COMMON + (' Random policy: 2 keys, limit any value, record si
 CHECKS.update({
     'C14': dict(text='One step from any state whose accounted usage is not below the stored total: after a store the stored total is at most '
                      'limit + the record just written, otherwise it has not grown; the written record survives its own sweep; the sweep terminates '
-                     'within the unwinding bound; plus in-solver BMC of k-command histories from the empty store (limits down to 0), replayed natively.',
-                design='5 C14', note=POLICY_NOTE + ' The concurrent form is explored under C16.'),
+                     'within the unwinding bound; plus in-solver BMC of k-command histories from the empty store (limits down to 0), replayed natively; '
+                     'concurrent form: under all schedules of 2 clients (set/delete/get incl. expired items) the accounted usage does not end below the stored total.',
+                design='5 C14', note=POLICY_NOTE + ' One known finding shared with C15 (the sweep\'s reset racing another client\'s accounting).'),
     'C15': dict(text='Hook form: one step from any state with accounted usage = stored total (and fitting under the limit) keeps them equal; '
                      'behavioural form: BMC of k-command histories in which the data always fits and a live item is evicted. Five accounting defects '
                      'are known findings (role-based regions); anything outside them is a violation; the usage never falls below the stored total (BMC, no '
@@ -77,12 +84,14 @@ CHECKS.update({
     'C13': dict(text='Decoder: too large <=> body_length > limit for every valid header, header-only consumption; handler: 0x03 echo, nothing '
                      'changed; socket: read_frame + skip_bytes on [oversized frame][followers] with every read size symbolic return ItemTooLarge and '
                      'leave the next unread position at exactly 24 + body_length, without panic, within the read bound; client level: Client::handle on an '
-                     'oversized frame of every opcode class answers 0x03 and serves the follower.',
+                     'oversized frame of every opcode class answers 0x03 and serves the follower; the configured item size limit is the one that reaches every listener '
+                     '(server construction path, both runtime types), confirmed on the real server started from CLI arguments.',
                 design='5 C13', note=SOCK_NOTE + ' <= 3 (quick) / 4 (thorough) reads; bodies needing more 64 KiB skip reads are outside the bound.'),
     'C17': dict(text='The spawned connection task (async block of MemcacheTcpServer::run) executed for every kind of ending (close, quit, quitq, '
                      'mid-request disconnect, reset, protocol error, oversized item, idle timeout, write error) at symbolic cut offsets and '
-                     'segmentations: it terminates and returns exactly one permit (Drop for Client), also on unwinding; native loopback runs with '
-                     'connection limit 1 confirm a later connection is served after each ending.',
+                     'segmentations: it terminates and returns exactly one permit (Drop for Client), also on unwinding; the accept loop with failing accept() / '
+                     'failing socket set-up: min(incoming, permits) connections are served, a returned permit admits exactly one waiter, and once every connection '
+                     'has ended `limit` fresh ones are served again; native loopback runs (limit 1, RST in the backlog, file-descriptor exhaustion) confirm.',
                 design='5 C17', note=SOCK_NOTE + ' tokio Semaphore trusted to be a counter; sequences of lifecycles by induction on the counter; '
                                                  'the accept-side acquire+forget is read from one iteration of the accept loop where the engine reaches it.'),
     'C18': dict(text='The real connection loop on m complete requests followed by a fault (close / reset / silence after a symbolic number of bytes of the '
@@ -98,7 +107,8 @@ CONC_NOTE = NOTE_COMMON + (' Concurrency: simulated threads execute the real Mem
 CHECKS.update({
     'C03': dict(text='Exhaustive schedule exploration of get / set / CAS-set / delete programs of 2-3 clients on one key; per schedule and path the solver '
                      'decides linearizability against a reference semantics with CAS values as tokens; direct assertions: at most one of two same-CAS '
-                     'stores on a live item succeeds, an acknowledged store is not undone by a retrieval collecting an expired predecessor.',
+                     'stores on a live item succeeds, an acknowledged store is not undone by a retrieval collecting an expired predecessor; the 2-client programs '
+                     'also on the store behind RandomPolicy.',
                 design='5 C03', note=CONC_NOTE + ' One known finding (conditional store on an absent key: get_mut then insert).'),
     'C04': dict(text='Same machinery on add / replace / append / prepend / incr / decr racing each other and set / delete / get, with the named consequences '
                      'as direct assertions. All six commands are lookup-then-store: one known finding per command (role-based region: a foreign mutation '
@@ -106,7 +116,8 @@ CHECKS.update({
                 design='5 C04', note=CONC_NOTE),
     'C16': dict(text='(a) every command of both store variants from an arbitrary state: no map call while the thread holds a guard of the map, closures under a '
                      'shard lock make no map call, loops end within the unwinding bound; (b) all schedules of 2-3 clients incl. flush and evicting stores: '
-                     'some client can always step and every command returns.',
+                     'some client can always step and every command returns; (c) the connection loop towards a peer that stops reading: the task suspends, no loop spins '
+                     '(TcpStream::writable/try_write models), confirmed over loopback with non-reading clients.',
                 design='5 C16', note=CONC_NOTE + ' Same-shard worst case for every pair of keys; lock fairness not modelled.'),
     'C20': dict(text='(a) relational one-step check: every command gives the same result and map contents with and without the eviction layer while the limit '
                      'is not reached, linked to histories by a headroom BMC (accounted usage stays within reach of the bytes sent) and a relational BMC of both '
